@@ -377,7 +377,10 @@ def success_side(ctx: Ctx, n):
     seen = set()
     for ci in range(n):
         must = G.AA3[ci % len(G.AA3)]
-        _f, res = G.window(rng, rng.choice([3, 4, 6]), must_have=must)
+        for _ in range(60):
+            _f, res = G.window(rng, rng.choice([3, 4, 6]), must_have=must)
+            if side_chains_complete(res):
+                break
         G.set_chain(res, "A", 1)
         c = G.centroid(res)
         waters = [G.water(rng, "A", 900, c, 9.0)] if rng.random() < 0.3 else []
@@ -400,19 +403,69 @@ def success_side(ctx: Ctx, n):
                     ctx.violate(sig, f"complete peptide {[r0[0].resn for r0 in res]} fails under {ff}: {msg}", {"pdb": text, "options": [f"--ff={ff}"]})
 
 
+_heavy = None
+
+
+def side_chains_complete(res):
+    """every heavy atom of every residue's definition is present (the offline structures contain
+    truncated side chains; with OXT missing as well a small peptide then exceeds is_repairable's 10%)"""
+    global _heavy
+    if _heavy is None:
+        from pdb2pqr import io as pio
+
+        d = pio.get_definitions()
+        _heavy = {n: {a for a in r.map if not a.startswith("H")} for n, r in d.map.items()}
+    return all(_heavy.get(r[0].resn, set()) <= {a.name for a in r} for r in res)
+
+
+def neutral_termini_side(ctx: Ctx, n):
+    """PARSE supports neutral termini: a complete peptide must also succeed with --neutraln / --neutralc,
+    whatever residue type sits at the neutralised end"""
+    rng = ctx.rng
+    seen = set()
+    for ci in range(n):
+        must = G.AA3[ci % len(G.AA3)]
+        opt = ("--neutralc", -1) if (ci // len(G.AA3)) % 2 == 0 else ("--neutraln", 0)
+        for _ in range(60):
+            _f, res = G.window(rng, 3, must_have=must)
+            if res[opt[1]][0].resn == must and side_chains_complete(res):
+                break
+        else:
+            continue
+        G.set_chain(res, "A", 1)
+        text = G.to_pdb([res])
+        r = G.run_pipeline(text, ["--ff=PARSE", opt[0]])
+        ctx.evaluations += 1
+        ctx.distinct.add(("success-neutral", opt[0], must))
+        ctx.count("success-side", f"PARSE {opt[0]}:{r.status}")
+        if r.status != "ok":
+            msg = str(r.exc.__cause__ or r.exc)[:120]
+            sig = {"side": "success", "ff": "PARSE", "cell": ("C" if opt[1] == -1 else "N") + f"-terminal {must}", "option": opt[0], "error": "non-integral-total" if "integral" in msg else msg[:40]}
+            k = tuple(sig.items())
+            if k not in seen:
+                seen.add(k)
+                ctx.violate(sig, f"complete peptide {[r0[0].resn for r0 in res]} fails under PARSE {opt[0]}: {msg}", {"pdb": text, "options": ["--ff=PARSE", opt[0]]})
+
+
 def attribute(text, res, ff):
-    """which terminal residue type makes a complete peptide fail: try peptides with the same first / last residue"""
-    if len(res) > 2:
-        inner = [[a.copy() for a in r] for r in res]
-        # drop the first residue
-        t1 = G.to_pdb([inner[1:]])
-        t2 = G.to_pdb([inner[:-1]])
-        s1 = G.run_pipeline(t1, [f"--ff={ff}"]).status
-        s2 = G.run_pipeline(t2, [f"--ff={ff}"]).status
-        if s1 == "ok" and s2 != "ok":
-            return f"N-terminal {res[0][0].resn}"
-        if s2 == "ok" and s1 != "ok":
-            return f"C-terminal {res[-1][0].resn}"
+    """which terminal residue type makes a complete peptide fail: compare with peptides whose first /
+    last residue is of another type (cut residues off that end until the type changes)"""
+    inner = [[a.copy() for a in r] for r in res]
+
+    def cut(side):
+        t = res[0][0].resn if side == "N" else res[-1][0].resn
+        cur = inner
+        while len(cur) > 2:
+            cur = cur[1:] if side == "N" else cur[:-1]
+            if (cur[0][0].resn if side == "N" else cur[-1][0].resn) != t:
+                return G.run_pipeline(G.to_pdb([cur]), [f"--ff={ff}"]).status
+        return None
+
+    s_n, s_c = cut("N"), cut("C")
+    if s_c == "ok" and s_n != "ok":
+        return f"C-terminal {res[-1][0].resn}"
+    if s_n == "ok" and s_c != "ok":
+        return f"N-terminal {res[0][0].resn}"
     return f"{res[0][0].resn}...{res[-1][0].resn}"
 
 
@@ -420,13 +473,14 @@ def run(ctx: Ctx):
     ctx.extra["rule"] = (
         "fault injection: every stage of the generated main_driver / non_trivial skeleton x {ValueError, RuntimeError} x output path {absent, pre-existing}; natural failures (11 triggers x 2 path states); "
         "charge guard: noninteger_charge vs the model on charges with every kind of fractional part; hydrogen-free peptides under --assign-only and CA traces (totals that cannot be integral): fail and leave the path alone, or write an integral total; "
-        "success side: complete peptide windows with each of the 20 residue types forced in turn x six force fields; a case is (stage, exception, path state) / (trigger, path state) / (ff, first, last residue); distinct counts distinct tuples"
+        "PARSE with --neutralc / --neutraln and each residue type at the neutralised end; success side: complete peptide windows with each of the 20 residue types forced in turn x six force fields; a case is (stage, exception, path state) / (trigger, path state) / (ff, first, last residue); distinct counts distinct tuples"
     )
     fault_injection(ctx, ctx.scale(1, 6))
     natural_failures(ctx)
     guard_tie(ctx, ctx.scale(400, 20000))
     non_integral_totals(ctx, ctx.scale(12, 400))
     success_side(ctx, ctx.scale(20, 600))
+    neutral_termini_side(ctx, ctx.scale(40, 400))
 
 
 def replay(ctx: Ctx, data: dict) -> bool:
